@@ -1,10 +1,15 @@
 package net
 
 import (
+	"crypto/aes"
 	"errors"
 	"io"
 	stdnet "net"
 	"time"
+
+	"github.com/Tnze/go-mc/net/CFB8"
+	pk "github.com/Tnze/go-mc/net/packet"
+	vp "github.com/Tnze/go-mc/internal/zzvp"
 )
 
 // vpPipeEnd is one end of an in-memory duplex connection. When a Read finds
@@ -58,3 +63,84 @@ func (p *vpPipeEnd) RemoteAddr() stdnet.Addr            { return nil }
 func (p *vpPipeEnd) SetDeadline(t time.Time) error      { return nil }
 func (p *vpPipeEnd) SetReadDeadline(t time.Time) error  { return nil }
 func (p *vpPipeEnd) SetWriteDeadline(t time.Time) error { return nil }
+
+// vpBlock: block cipher as an uninterpreted function (see CFB8 harness).
+type vpBlock struct{}
+
+func (vpBlock) BlockSize() int { return 16 }
+func (vpBlock) Encrypt(dst, src []byte) {
+	copy(dst, vp.UF("E", src[:16], 16))
+}
+func (vpBlock) Decrypt(dst, src []byte) { panic("CFB8 never decrypts blocks") }
+
+func vpSetupNative() {
+	if vp.Symbolic() {
+		return
+	}
+	c, _ := aes.NewCipher([]byte("0123456789abcdef"))
+	vp.SetUF("E", func(in []byte, n int) []byte {
+		out := make([]byte, 16)
+		c.Encrypt(out, in)
+		return out
+	})
+}
+
+// a connection on which both ends enabled encryption, with or without
+// compression, delivers every packet intact and in order (C10); Conn applies
+// its threshold to both directions (C07).
+func vpConnPair(encrypt bool, threshold int) (a, b *Conn) {
+	pa, pb := vpPipe()
+	a, b = WrapConn(pa), WrapConn(pb)
+	if encrypt {
+		iv := vp.Bytes(16)
+		a.SetCipher(CFB8.NewCFB8Encrypt(vpBlock{}, iv), CFB8.NewCFB8Decrypt(vpBlock{}, iv))
+		b.SetCipher(CFB8.NewCFB8Encrypt(vpBlock{}, iv), CFB8.NewCFB8Decrypt(vpBlock{}, iv))
+	}
+	a.SetThreshold(threshold)
+	b.SetThreshold(threshold)
+	return
+}
+
+func vpConnThreshold() int {
+	switch vp.Choice(3) {
+	case 0:
+		return -1
+	case 1:
+		return 0
+	}
+	return 2
+}
+
+func vpSmallID() int32 {
+	id := vp.Int32() // one-byte ids here; the full id range is C07's round-trip harness
+	vp.Assume(id >= 0 && id < 128)
+	return id
+}
+
+func vpExchange(a, b *Conn) {
+	vp.PoolMode(1) // pooled buffers are always reused (dirty)
+	p1 := pk.Packet{ID: vpSmallID(), Data: vp.Bytes(vp.Choice(4))}
+	p2 := pk.Packet{ID: vpSmallID(), Data: vp.Bytes(vp.Choice(3))}
+	vp.Assert(a.WritePacket(p1) == nil, "WritePacket 1")
+	vp.Assert(a.WritePacket(p2) == nil, "WritePacket 2")
+	var q pk.Packet
+	vp.Assert(b.ReadPacket(&q) == nil, "ReadPacket 1")
+	vp.Assert(q.ID == p1.ID && len(q.Data) == len(p1.Data), "first packet intact")
+	for i := range p1.Data {
+		vp.Assert(q.Data[i] == p1.Data[i], "first packet intact")
+	}
+	vp.Assert(b.ReadPacket(&q) == nil, "ReadPacket 2")
+	vp.Assert(q.ID == p2.ID && len(q.Data) == len(p2.Data), "second packet intact and in order")
+	for i := range p2.Data {
+		vp.Assert(q.Data[i] == p2.Data[i], "second packet intact and in order")
+	}
+	// and one packet in the other direction
+	p3 := pk.Packet{ID: vpSmallID(), Data: vp.Bytes(vp.Choice(3))}
+	vp.Assert(b.WritePacket(p3) == nil, "WritePacket 3")
+	vp.Assert(a.ReadPacket(&q) == nil, "ReadPacket 3")
+	vp.Assert(q.ID == p3.ID && len(q.Data) == len(p3.Data), "reverse direction intact")
+	for i := range p3.Data {
+		vp.Assert(q.Data[i] == p3.Data[i], "reverse direction intact")
+	}
+}
+
